@@ -1,0 +1,35 @@
+//go:build verif
+
+// Contracts for package p2p, checked by /verif/govc (comment-only; compiled only with -tags verif).
+package p2p
+
+// ---- C17: the encrypted byte stream ------------------------------------------------------------------------
+// what is left of a partially consumed chunk is kept, whole and in order, for the next Read
+//@ func (*EncryptedConn).holdUnread
+//@   ensures[length] 0 <= bytesRead && bytesRead < len(chunk) ==> len(c.receive.unread) == len(chunk) - bytesRead
+//@   ensures[content] 0 <= bytesRead && bytesRead < len(chunk) ==> forall i int :: 0 <= i && i < len(chunk) - bytesRead ==> c.receive.unread[i] == old(chunk[bytesRead + i])
+//@   ensures[nothing] bytesRead >= len(chunk) ==> unchanged(c.receive.unread)
+
+// pending bytes are served first, in order, and exactly the served prefix is removed
+//@ func (*EncryptedConn).checkUnread
+//@   ensures[served] old(len(c.receive.unread)) > 0 ==> result1 && result0 == min(len(data), old(len(c.receive.unread))) && len(c.receive.unread) == old(len(c.receive.unread)) - result0
+//@   ensures[none] old(len(c.receive.unread)) == 0 ==> !result1 && result0 == 0 && unchanged(c.receive.unread)
+
+// the nonce counter advances by exactly one per frame (a reused nonce would break the AEAD);
+// the fixed 4-byte prefix is untouched
+//@ func incrementNonce
+//@   requires nonce != nil
+//@   ensures[advance] le64(bytes(nonce[4:12])) == (old(le64(bytes(nonce[4:12]))) == MaxUint64 ? 1 : old(le64(bytes(nonce[4:12]))) + 1)
+
+// ---- C18: packetisation -------------------------------------------------------------------------------------
+// chunk i of a message is exactly bytes [i*lim, min((i+1)*lim, len)) of it (same memory, in order):
+// nothing is dropped, duplicated or reordered, every chunk but the last is full, none is longer than
+// lim, and the only empty chunk is the single chunk of an empty message
+//@ func split
+//@   requires[lim] lim > 0
+//@   ensures[empty] len(buf) == 0 ==> len(result) == 1 && len(result[0]) == 0
+//@   ensures[count] len(buf) > 0 ==> (len(result) - 1) * lim < len(buf) && len(buf) <= len(result) * lim
+//@   ensures[full] len(buf) > 0 ==> forall i int :: 0 <= i && i < len(result) - 1 ==> result[i] == buf[i*lim : (i+1)*lim]
+//@   ensures[last] len(buf) > 0 ==> result[len(result)-1] == buf[(len(result)-1)*lim : len(buf)]
+//@   loop 1 invariant[prefix] 0 <= len(chunks) && len(chunks) * lim <= len(old(buf)) && buf == old(buf)[len(chunks)*lim:] && len(old(buf)) > 0
+//@   loop 1 invariant[chunks] forall i int :: 0 <= i && i < len(chunks) ==> chunks[i] == old(buf)[i*lim : (i+1)*lim]
